@@ -306,6 +306,12 @@ func (r *Rng) genQuery(wf bool) querySpec {
 			body = append(body, packRR(r.randRR(12+len(body)))...)
 			ar++
 			q.kinds = append(q.kinds, "post-opt-additional")
+		} else if r.Chance(8) {
+			// a signed query: the TSIG record closes the message, AFTER the OPT record (RFC 8945, 5.1)
+			key := wireName(labelPool[r.Intn(len(labelPool))], "key")
+			body = append(body, packRR(rrSpec{name: key, typ: 250, class: 255, ttl: 0, rdata: r.Bytes(16 + r.Intn(40))})...)
+			ar++
+			q.kinds = append(q.kinds, "tsig-after-opt")
 		}
 	}
 	if !wf && r.Chance(5) {
